@@ -1200,7 +1200,24 @@ pub fn check_multi(mc: &MCase, st: &mut Stats) -> CheckResult {
     or.c02 = true;
     or.c08 = true;
     or.c11 = true;
-    let mut h = Hist::with_driver(&mc.case, mk()?, or);
+    // a third of the HTTP cases: the "instances" are the worker threads of one HttpServer (each
+    // with its own application instance), reached over a fresh connection per request
+    let workers_mode = mc.via == Via::Http && mc.case.salt % 3 == 0;
+    let mut _srv = None;
+    let mut first = mk()?;
+    if workers_mode {
+        let ws = taskchampion_sync_server::WebServer::new(crate::driver::server_config(&mc.case.cfg), None, crate::driver::ArcStorage(first.storage.clone()));
+        let srv = crate::sock::SockServer::start_workers(ws, k + 1).map_err(|e| Fail::Inconclusive(format!("cannot start a socket server: {e:#}")))?;
+        let addr = srv.addr;
+        _srv = Some(srv);
+        first.ext = Some(Box::new(move |r: &crate::driver::HttpReq| -> crate::driver::HttpResp {
+            match crate::sock::exchange(addr, r, crate::sock::Encoding::ContentLength, &[], Duration::from_secs(20)) {
+                Ok(resp) => resp,
+                Err(e) => crate::driver::HttpResp { status: 0, crashed: Some(format!("no response: {e:?}")), ..Default::default() },
+            }
+        }));
+    }
+    let mut h = Hist::with_driver(&mc.case, first, or);
     // the other instances, and which instance each slot holds
     let mut pool: Vec<Driver> = vec![];
     let mut pool_ids: Vec<usize> = vec![];
@@ -1214,7 +1231,7 @@ pub fn check_multi(mc: &MCase, st: &mut Stats) -> CheckResult {
     let n = mc.case.ops.len();
     let mut switches = 0;
     for (idx, op) in mc.case.ops.iter().enumerate() {
-        let want = (mc.who.get(idx).copied().unwrap_or(0) as usize) % k;
+        let want = if workers_mode { 0 } else { (mc.who.get(idx).copied().unwrap_or(0) as usize) % k };
         if want != current {
             let j = pool_ids.iter().position(|x| *x == want).expect("instance in pool");
             std::mem::swap(&mut h.drv, &mut pool[j]);
@@ -1241,8 +1258,8 @@ pub fn check_multi(mc: &MCase, st: &mut Stats) -> CheckResult {
         }
     }
     st.check();
-    st.label(&format!("c03:instances:{k}:{:?}", mc.via));
-    if switches >= 2 {
+    st.label(&format!("c03:instances:{k}:{:?}{}", mc.via, if workers_mode { ":workers-of-one-server" } else { "" }));
+    if switches >= 2 || workers_mode {
         let shape: Vec<(u8, &'static str)> = h.steps.iter().map(|s| (mc.who.get(s.idx).copied().unwrap_or(0) % k as u8, s.outcome.class())).collect();
         st.nontrivial(&("c03-multi", mc.via, shape));
     }
